@@ -1170,6 +1170,24 @@ VARIANTS += [
          edits=[dict(file="ipa-core/src/protocol/basics/check_zero.rs", find='        &malicious_reveal(ctx.narrow(&Step::RevealR), record_id, None, &rv_share)\n', replace='        &crate::protocol::basics::reveal::semi_honest_reveal(ctx.narrow(&Step::RevealR), record_id, None, &rv_share)\n'), dict(file="ipa-core/src/protocol/basics/check_zero.rs", find='        basics::{malicious_reveal, mul::semi_honest_multiply, step::CheckZeroStep as Step},', replace='        basics::{mul::semi_honest_multiply, step::CheckZeroStep as Step},')]),
 ]
 
+VARIANTS += [
+    dict(prop="C03", name="prover-hash-accepts-empty-proof", expect=['HASH-cover', 'possibly-empty-hash'],
+         edits=[dict(file="ipa-core/src/protocol/ipa_prf/malicious_security/prover.rs", find='            &compute_hash(proof_left),\n', replace='            &crate::helpers::hashing::compute_possibly_empty_hash(proof_left),\n')]),
+]
+
+VARIANTS += [
+    dict(prop="C03", name="empty-hash-refused-in-debug-builds-only", expect=['HASH-cover', 'refuses-empty-input'],
+         edits=[dict(file='ipa-core/src/helpers/hashing.rs', find='    assert!(!empty, "must not provide an empty iterator");', replace='    debug_assert!(!empty, "must not provide an empty iterator");')]),
+    dict(prop="C03", name="exclude-range-checked-in-debug-builds-only", expect=['RANGE-challenge', 'exclude-range-asserted'],
+         edits=[dict(file='ipa-core/src/helpers/hashing.rs', find='    assert!(\n        2 * exclude_to < prime,', replace='    debug_assert!(\n        2 * exclude_to < prime,')]),
+    dict(prop="C03", name="proof-capacity-checked-in-debug-builds-only", expect=['CONST-capacity', 'generate-asserts-bound'],
+         edits=[dict(file='ipa-core/src/protocol/ipa_prf/validation_protocol/proof_generation.rs', find='        assert!(\n            uv_values.len() <= max_uv_values,', replace='        debug_assert!(\n            uv_values.len() <= max_uv_values,')]),
+    dict(prop="C13", name="alignment-checked-in-debug-builds-only", expect=['ALIGN', 'new_with:assert:capacity%read_size==0'],
+         edits=[dict(file='ipa-core/src/helpers/gateway/send.rs', find='        assert_eq!(0, this.total_capacity.get() % this.read_size.get());', replace='        debug_assert_eq!(0, this.total_capacity.get() % this.read_size.get());')]),
+    dict(prop="C13", name="capacity-checked-in-debug-builds-only", expect=['ALIGN', 'new_with:assert:capacity>=active*record'],
+         edits=[dict(file='ipa-core/src/helpers/gateway/send.rs', find='        assert!(this.total_capacity.get() >= record_size * gateway_config.active.get());', replace='        debug_assert!(this.total_capacity.get() >= record_size * gateway_config.active.get());')]),
+]
+
 # rules shared between properties: the same edit must be reported under the other property too
 VARIANTS += [dict(v, prop="C05", name=v["name"] + "@C05") for v in VARIANTS
              if v["name"] in ("h1-shuffle-empty-shard-leaves", "sharded-shuffle-empty-shard-leaves", "reshard-closes-channels-on-input-error", "reshard-closes-before-matching-none")]
